@@ -3,6 +3,7 @@ package oracle
 import (
 	"time"
 
+	"verif/harness/model"
 	"verif/harness/sim"
 )
 
@@ -26,6 +27,11 @@ func ResolvedReporting(t *Truth) *Report {
 				rep.Counters["resolved_listed"]++
 				if !a.SendResolved {
 					rep.violate("resolved-reporting", "resolved-alert-listed-with-send-resolved-off", map[string]any{"attempt": describe(r, a), "alert": k})
+				}
+				if !al.EndsAt.IsZero() && al.EndsAt.After(a.Tick) && !al.EndsAt.After(a.Start) {
+					// the alert was still firing at the flush tick and turned resolved while the
+					// notification was in the pipeline: its status was not frozen at flush time
+					rep.Counters["resolved_mid_pipeline"]++
 				}
 				if al.EndsAt.IsZero() || al.EndsAt.After(a.Start) {
 					rep.violate("resolved-reporting", "reported-resolved-before-end-time", map[string]any{"attempt": describe(r, a), "alert": k, "ends_at": fmtT(r, al.EndsAt)})
@@ -101,36 +107,18 @@ func ResolvedPromptly(t *Truth) *Report {
 				if h == nil {
 					continue
 				}
-				st := h.At(prev.End, false)
-				if st == nil {
+				te, okTe := resolvedAfter(h, prev.End)
+				if !okTe {
 					continue
-				}
-				te := st.EndHi()
-				// a later submission may move the end: use the state in force at te
-				if st2 := h.At(te, false); st2 != nil && st2 != st {
-					continue // refreshed or changed before the end: a later success/pair handles it
 				}
 				if !te.After(prev.End) || !te.Before(until) {
 					// ended before this success was sent, or another success intervenes before the end
 					continue
 				}
-				deadline := te.Add(n.GroupInterval + slack)
-				if deadline.After(r.End) || deadline.After(ep.To) {
-					continue
-				}
-				// must stay resolved, unsuppressed, accepting over [te, deadline]
-				good := true
-				l := t.LabelsOf(k)
-				for _, x := range t.Samples(te, deadline) {
-					if r.Alerts.PossiblyFiring(k, x) && x.After(te) {
-						good = false
-					}
-					if t.PossiblySuppressed(l, ep, n, x) || !t.Accepting(prev.Receiver, prev.Idx, x) {
-						good = false
-					}
-				}
 				// and must have been firing and unsuppressed from the success to the end (otherwise an
 				// intermediate notification without it may legitimately have dropped it)
+				good := true
+				l := t.LabelsOf(k)
 				for _, x := range t.Samples(prev.Tick, te) {
 					if x.Before(te) && !r.Alerts.SurelyFiring(k, x) {
 						good = false
@@ -140,6 +128,53 @@ func ResolvedPromptly(t *Truth) *Report {
 					}
 				}
 				if !good {
+					continue
+				}
+				// A failed delivery never discharges the obligation: the resolved alert stays in its
+				// group until one send succeeds. Find the first window after the end, of length
+				// group_interval+slack, in which the alert stays resolved and unsuppressed and the
+				// integration accepts deliveries throughout; by the end of that window a success listing
+				// it as resolved must have happened (at any time after the end).
+				window := n.GroupInterval + slack
+				horizon := r.End
+				if ep.To.Before(horizon) {
+					horizon = ep.To
+				}
+				// the notification-log entry is only kept for 2*max(repeat_interval, group_interval)
+				// (documented expiry): beyond that the receiver's last state is forgotten by design
+				keep := 2 * n.RepeatInterval
+				if 2*n.GroupInterval > keep {
+					keep = 2 * n.GroupInterval
+				}
+				if lim := prev.End.Add(keep - window); lim.Before(horizon) {
+					horizon = lim
+				}
+				var deadline time.Time
+				found0 := false
+				samples := t.Samples(te, horizon)
+				var runStart *time.Time
+				for _, x := range samples {
+					if r.Alerts.PossiblyFiring(k, x) && x.After(te) {
+						break // re-fired: the resolution is no longer owed
+					}
+					if t.PossiblySuppressed(l, ep, n, x) {
+						break // a flush that mutes the resolved alert drops it without telling the receiver
+					}
+					if !t.Accepting(prev.Receiver, prev.Idx, x) {
+						runStart = nil
+						continue
+					}
+					if runStart == nil {
+						xx := x
+						runStart = &xx
+					}
+					if x.Sub(*runStart) > window {
+						deadline = runStart.Add(window)
+						found0 = true
+						break
+					}
+				}
+				if !found0 {
 					continue
 				}
 				rep.Counters["resolutions_owed"]++
@@ -163,4 +198,32 @@ func ResolvedPromptly(t *Truth) *Report {
 		}
 	}
 	return rep
+}
+
+// resolvedAfter returns the first instant after from at which the label set is resolved under
+// every admissible reading: either the end of the state then in force passes, or a submission
+// with an end that is already in the past arrives.
+func resolvedAfter(h *model.AlertHistory, from time.Time) (time.Time, bool) {
+	for j := range h.States {
+		s := &h.States[j]
+		spanStart := s.T
+		if spanStart.Before(from) {
+			spanStart = from
+		}
+		var spanEnd time.Time
+		if j+1 < len(h.States) {
+			spanEnd = h.States[j+1].T
+			if !spanEnd.After(from) {
+				continue
+			}
+		}
+		cand := s.EndHi()
+		if cand.Before(spanStart) {
+			cand = spanStart
+		}
+		if spanEnd.IsZero() || cand.Before(spanEnd) {
+			return cand, true
+		}
+	}
+	return time.Time{}, false
 }
